@@ -46,7 +46,7 @@ Record cop := { p_id : N; p_cli : N; p_inv : N; p_resp : N; p_cred : cred; p_req
                 p_keep : option (list name) }.
 Definition sview := (path * (kind * N * N))%type.        (* kind, perm, size as Lstat reports them *)
 Record case := { k_mode : N; k_cfg : cfg; k_init : list dump_entry; k_paths : list (N * path); k_ops : list cop;
-                 k_final : list dump_entry; k_hist : list (N * list sview); k_probe : list (obs * obs);
+                 k_final : list dump_entry; k_hist : list (N * list sview); k_probe : list (obs * option obs);
                  k_table : list (N * path); k_issued : list (N * path);
                  k_acsize : N; k_dcsize : N; k_gor0 : N; k_gor1 : N; k_deadlock : bool; k_panic : bool }.
 
@@ -321,7 +321,8 @@ Definition quiescent_check (K : case) : list (N * N) :=
   (if table_ok K then [] else [(st_table, code_specfail)]) ++
   (if (k_acsize K <=? attr_cap (k_cfg K)) && (k_dcsize K <=? dir_cap (k_cfg K)) then [] else [(st_cachesize, code_specfail)]) ++
   (if k_gor1 K <=? k_gor0 K then [] else [(st_goroutines, code_specfail)]) ++
-  (if forallb (fun ab => probe_eqb (fst ab) (snd ab)) (k_probe K) then [] else [(st_probe, code_specfail)]).
+  (* the twin's reply is spelled out only when its rendering differs from the server's (None = the identical term) *)
+  (if forallb (fun ab => match snd ab with Some b => probe_eqb (fst ab) b | None => true end) (k_probe K) then [] else [(st_probe, code_specfail)]).
 
 Definition check (K : case) : list (N * N) :=
   if k_deadlock K then [(st_deadlock, code_specfail)] else
